@@ -171,7 +171,7 @@ def _prepare_validator_of_mapping(
         match value:
             case {**elements}:
                 return MappingProxyType(
-                    {key_validator(key): value_validator(value) for key, value in elements}
+                    {key_validator(key): value_validator(value) for key, value in elements.items()}
                 )
 
             case _:
